@@ -3,7 +3,7 @@
 // obstacles, a state space that counts (and, in trace mode, logs) every allocState/freeState, and a termination
 // condition that turns true at evaluation number k+1 of the current solve call and stays true (no wall clock).
 //
-// header:  proto planner=<name> seed=<n> dim=<d> trace=<0|1> [limit=<s>] boxes <pdim> <k> (<lo>*pdim <hi>*pdim)*k
+// header:  proto planner=<name> seed=<n> dim=<d> trace=<0|1> [limit=<s>] [res=<bits>] [obj=len] boxes <pdim> <k> (<lo>*pdim <hi>*pdim)*k
 // ops:     setpd <sx>*d <gx>*d <thr>      new ProblemDefinition (the previous one is dropped), setProblemDefinition
 //          setsg <sx>*d <gx>*d <thr>      same ProblemDefinition object: setStartAndGoalStates + clearSolutionPaths
 //          mutpd <sx>*d <gx>*d <thr>      as setsg, then planner->setProblemDefinition(the same pointer)
@@ -279,6 +279,18 @@ static ob::PlannerPtr makePlanner(const std::string &n, const ob::SpaceInformati
         p->setPruningRadius(0.04);
         return p;
     }
+    if (n == "BITstarA" || n == "ABITstarA")
+    {
+        // BIT* / ABIT* report approximate solutions only when asked to (closestVertexToGoal_ / closestDistanceToGoal_
+        // bookkeeping in the ImplicitGraph); these variants ask
+        std::shared_ptr<og::BITstar> p;
+        if (n == "BITstarA")
+            p = std::make_shared<og::BITstar>(si);
+        else
+            p = std::make_shared<og::ABITstar>(si);
+        p->setConsiderApproximateSolutions(true);
+        return p;
+    }
     if (n == "CForest")
     {
         auto p = std::make_shared<og::CForest>(si);
@@ -313,6 +325,7 @@ struct EvalState
     unsigned long fireAt = 0;
     std::atomic<long> firstSol{-1}, firstExact{-1};
     std::atomic<long long> firedAtMs{-1};  // steady-clock ms of the first evaluation that returned true
+    std::atomic<long long> lastEvalMs{-1};  // steady-clock ms of the latest evaluation
 };
 
 static long long nowMs()
@@ -338,6 +351,7 @@ struct Session
     std::vector<std::vector<double>> curStarts, curGoals, retired;
     bool setupDone = false;
     long extraGoalStates = 0;  // a GoalStates goal holds more than one state
+    bool withObjective = false;  // header obj=len: every problem definition gets a PathLengthOptimizationObjective
 
     std::vector<double> reals(const ob::State *s) const
     {
@@ -482,6 +496,7 @@ static void doSolve(Session &S, unsigned long k)
             es->firstExact.compare_exchange_strong(exp, (long)n);
         }
         bool r = n > es->fireAt;
+        es->lastEvalMs.store(nowMs());
         if (r && es->firedAtMs.load() < 0)
         {
             long long exp = -1;
@@ -509,11 +524,21 @@ static void doSolve(Session &S, unsigned long k)
         }
         // watchdog: the condition has been evaluated true and solve() still has not returned after the wall limit
         std::atomic<bool> done{false};
+        es->lastEvalMs.store(nowMs());
         std::thread dog([&done, es, k]() {
             while (!done.load())
             {
                 std::this_thread::sleep_for(std::chrono::milliseconds(50));
                 long long f = es->firedAtMs.load();
+                long long le = es->lastEvalMs.load();
+                if (f < 0 && le >= 0 && !done.load() && (nowMs() - le) > (long long)(g_returnLimit * 1000.0))
+                {
+                    // not yet fired, but the planner stopped consulting its termination condition altogether
+                    std::cout << "solve STALLED k=" << k << " evals=" << es->evals.load() << " limit_s=" << g_returnLimit
+                              << " (termination condition not evaluated for the limit; it would never be seen to fire)" << std::endl;
+                    std::cout.flush();
+                    _exit(96);
+                }
                 if (f >= 0 && !done.load() && (nowMs() - f) > (long long)(g_returnLimit * 1000.0))
                 {
                     std::cout << "solve NORETURN k=" << k << " evals=" << es->evals.load() << " limit_s=" << g_returnLimit
@@ -729,7 +754,16 @@ int main()
             S.si->setStateValidityChecker(std::make_shared<TraceVC>(S.si, env, S.tracker));
         else
             S.si->setStateValidityChecker(std::make_shared<vp::RecordingValidityChecker>(S.si, env, false));
-        S.si->setStateValidityCheckingResolution(0.02);
+        double res = 0.02;
+        if (kv.count("res"))
+        {
+            auto r = vp::parseBits(kv["res"]);
+            if (!r || !(*r > 0) || *r > 1)
+                throw vp::ParseError("res");
+            res = *r;
+        }
+        S.si->setStateValidityCheckingResolution(res);
+        S.withObjective = kv.count("obj") && kv["obj"] == "len";
         if (S.tracker->trace && !S.csi)
             S.si->setMotionValidator(std::make_shared<TraceMV>(S.si, S.tracker));
         S.si->setup();
@@ -777,6 +811,8 @@ int main()
                 if (op == "setpd")
                 {
                     auto np = std::make_shared<ob::ProblemDefinition>(S.si);
+                    if (S.withObjective)
+                        np->setOptimizationObjective(std::make_shared<ob::PathLengthOptimizationObjective>(S.si));
                     ob::ProblemDefinitionPtr oldp = S.pdef;
                     S.pdef = np;
                     S.fillStartGoal(s, g, thr);
@@ -821,6 +857,8 @@ int main()
                 double thr = vp::needF(t, i);
                 S.retireCurrent();
                 auto np = std::make_shared<ob::ProblemDefinition>(S.si);
+                if (S.withObjective)
+                    np->setOptimizationObjective(std::make_shared<ob::PathLengthOptimizationObjective>(S.si));
                 ob::ProblemDefinitionPtr oldp = S.pdef;
                 S.pdef = np;
                 ob::ScopedState<> st(S.space);
